@@ -43,50 +43,51 @@ def run_scenario(chooser: Any, prog_name: str, alphabet: list[str], budget: int,
 
     async def main() -> None:
         gw = Gateway(rec)
-        tr = await connect(rec, gw, uri(ack_ms if ack_ms != 1000 else None))
-        st = {"budget": budget, "nfeed": 0}
+        with gw.reachable():  # the gateway accepts (and records) further connections during the scenario
+            tr = await connect(rec, gw, uri(ack_ms if ack_ms != 1000 else None))
+            st = {"budget": budget, "nfeed": 0}
 
-        def feed(name: str) -> None:
-            st["nfeed"] += 1
-            fed_names.append(name)
-            cut = (cut_plan or {}).get(st["nfeed"])
-            if cut:
-                gw.feed_named(name, cut=cut[0], gap_ms=cut[1])
-            else:
-                gw.feed_named(name)
+            def feed(name: str) -> None:
+                st["nfeed"] += 1
+                fed_names.append(name)
+                cut = (cut_plan or {}).get(st["nfeed"])
+                if cut:
+                    gw.feed_named(name, cut=cut[0], gap_ms=cut[1])
+                else:
+                    gw.feed_named(name)
 
-        def instant() -> None:
-            while st["budget"] > 0:
-                c = chooser.choose(len(alphabet) + 1)
-                if c == 0:
-                    return
-                st["budget"] -= 1
-                feed(alphabet[c - 1])
+            def instant() -> None:
+                while st["budget"] > 0:
+                    c = chooser.choose(len(alphabet) + 1)
+                    if c == 0:
+                        return
+                    st["budget"] -= 1
+                    feed(alphabet[c - 1])
 
-        def on_data(_f: Any) -> None:
-            instant()
-            if auto:
-                feed("Ack")
+            def on_data(_f: Any) -> None:
                 instant()
-                loop = asyncio.get_running_loop()
-                loop.call_later(0.05, lambda: feed("DataUs") if gw.wire and not gw.wire.writer.is_closing() else None)
+                if auto:
+                    feed("Ack")
+                    instant()
+                    loop = asyncio.get_running_loop()
+                    loop.call_later(0.05, lambda: feed("DataUs") if gw.wire and not gw.wire.writer.is_closing() else None)
 
-        gw.on_data_out = on_data
-        for op, tmo, data in program:
-            instant()
-            await settle()
-            task = asyncio.ensure_future(do_op(rec, tr, op, tmo, data))
-            horizon = min(tmo if tmo is not None else ack_ms / 1000, ack_ms / 1000) if op == "write" else (tmo or 1.0)
-            t_start = asyncio.get_running_loop().time()
-            for at in (0.1, horizon - 0.3, horizon - 0.05):
-                delay = t_start + at - asyncio.get_running_loop().time()
-                if delay > 0:
-                    await asyncio.wait({task}, timeout=delay)
-                if task.done():
-                    break
+            gw.on_data_out = on_data
+            for op, tmo, data in program:
                 instant()
-            await task
-        await drain_and_finish(rec, tr)
+                await settle()
+                task = asyncio.ensure_future(do_op(rec, tr, op, tmo, data))
+                horizon = min(tmo if tmo is not None else ack_ms / 1000, ack_ms / 1000) if op == "write" else (tmo or 1.0)
+                t_start = asyncio.get_running_loop().time()
+                for at in (0.1, horizon - 0.3, horizon - 0.05):
+                    delay = t_start + at - asyncio.get_running_loop().time()
+                    if delay > 0:
+                        await asyncio.wait({task}, timeout=delay)
+                    if task.done():
+                        break
+                    instant()
+                await task
+            await drain_and_finish(rec, tr)
 
     hang = False
     try:
@@ -108,41 +109,42 @@ def concurrent_case(write_at_ms: int, ack_delay_ms: int, data: str, alive: bool,
 
     async def main() -> None:
         gw = Gateway(rec)
-        tr = await connect(rec, gw, uri(None))
-        loop = asyncio.get_running_loop()
+        with gw.reachable():  # the gateway accepts (and records) further connections during the scenario
+            tr = await connect(rec, gw, uri(None))
+            loop = asyncio.get_running_loop()
 
-        def feed(name: str) -> None:
-            if gw.wire is not None and not gw.wire.writer.is_closing():
-                fed_names.append(name)
-                gw.feed_named(name)
+            def feed(name: str) -> None:
+                if gw.wire is not None and not gw.wire.writer.is_closing():
+                    fed_names.append(name)
+                    gw.feed_named(name)
 
-        def on_data(_f: Any) -> None:
-            if data == "before":
-                loop.call_later(max(ack_delay_ms - 20, 0) / 1000, feed, "DataUs")
-            loop.call_later(ack_delay_ms / 1000, feed, "Ack")
-            if data == "after":
-                loop.call_later((ack_delay_ms + 100) / 1000, feed, "DataUs")
-            if alive:
-                loop.call_later((ack_delay_ms + 10) / 1000, feed, "Alive")
+            def on_data(_f: Any) -> None:
+                if data == "before":
+                    loop.call_later(max(ack_delay_ms - 20, 0) / 1000, feed, "DataUs")
+                loop.call_later(ack_delay_ms / 1000, feed, "Ack")
+                if data == "after":
+                    loop.call_later((ack_delay_ms + 100) / 1000, feed, "DataUs")
+                if alive:
+                    loop.call_later((ack_delay_ms + 10) / 1000, feed, "Alive")
 
-        gw.on_data_out = on_data
+            gw.on_data_out = on_data
 
-        async def bg() -> str:
-            from harness.c07_hsfz import classify_exc
-            rec.add("Begin", op="bgread", tmo=int(round(read_tmo * 1000)), d=[])
-            res, d = "ok", []
-            try:
-                d = list(await tr.read(timeout=read_tmo))
-            except BaseException as e:  # noqa: BLE001
-                res = classify_exc(e)
-            rec.add("End", op="bgread", res=res, d=d)
-            return res
+            async def bg() -> str:
+                from harness.c07_hsfz import classify_exc
+                rec.add("Begin", op="bgread", tmo=int(round(read_tmo * 1000)), d=[])
+                res, d = "ok", []
+                try:
+                    d = list(await tr.read(timeout=read_tmo))
+                except BaseException as e:  # noqa: BLE001
+                    res = classify_exc(e)
+                rec.add("End", op="bgread", res=res, d=d)
+                return res
 
-        task = asyncio.ensure_future(bg())
-        await asyncio.sleep(write_at_ms / 1000)
-        await do_op(rec, tr, "write", 5.0, b"\x3e\x80")
-        await task
-        await drain_and_finish(rec, tr)
+            task = asyncio.ensure_future(bg())
+            await asyncio.sleep(write_at_ms / 1000)
+            await do_op(rec, tr, "write", 5.0, b"\x3e\x80")
+            await task
+            await drain_and_finish(rec, tr)
 
     hang = False
     try:
@@ -162,18 +164,19 @@ def backlog_case(nframes: int) -> dict[str, Any]:
 
     async def main() -> None:
         gw = Gateway(rec)
-        tr = await connect(rec, gw, uri(None))
-        for _ in range(nframes):
-            fed_names.append("DataUs")
-            gw.feed_named("DataUs")
-        await settle()
-        fed_names.append("Alive")
-        gw.feed_named("Alive")
-        await asyncio.sleep(1.0)
-        for _ in range(nframes):
-            if await do_op(rec, tr, "read", 1.0, b"") != "ok":
-                break
-        await drain_and_finish(rec, tr)
+        with gw.reachable():  # the gateway accepts (and records) further connections during the scenario
+            tr = await connect(rec, gw, uri(None))
+            for _ in range(nframes):
+                fed_names.append("DataUs")
+                gw.feed_named("DataUs")
+            await settle()
+            fed_names.append("Alive")
+            gw.feed_named("Alive")
+            await asyncio.sleep(1.0)
+            for _ in range(nframes):
+                if await do_op(rec, tr, "read", 1.0, b"") != "ok":
+                    break
+            await drain_and_finish(rec, tr)
 
     hang = False
     try:
@@ -183,6 +186,57 @@ def backlog_case(nframes: int) -> dict[str, Any]:
         rec.ev.append({"e": "Final", "t": rec.ev[-1]["t"] if rec.ev else 0, "drained": False})
     return {"cfg": cfg(1000), "ev": rec.ev, "prog": f"backlog-while-idle/{nframes}", "auto": False, "fed": fed_names,
             "hang": hang, "cut": []}
+
+
+def reconnecting_write_control(word: str = "Err45") -> dict[str, Any]:
+    """Negative control for the reachable gateway: the harness wraps the real transport in what a transport that
+    'helps itself' would do -- a write that meets a connection error opens a further connection to the gateway and
+    sends the request again there, where it is acknowledged.  The recorded execution must show the second connection
+    and must be rejected by the contract."""
+    rec = Recorder()
+    fed_names: list[str] = []
+
+    async def main() -> None:
+        from gallia.transports.hsfz import HSFZTransport
+
+        gw = Gateway(rec)
+        with gw.reachable():
+            tr = await connect(rec, gw, uri(None))
+
+            def on_data(_f: Any) -> None:
+                name = word if len(gw.listener.wires) == 1 else "Ack"
+                fed_names.append(name)
+                gw.feed_named(name)
+
+            gw.on_data_out = on_data
+
+            class SelfHelp:
+                def __init__(self) -> None:
+                    self.tr = tr
+
+                async def write(self, data: bytes, timeout: float | None = None) -> int:
+                    try:
+                        return await self.tr.write(data, timeout=timeout)
+                    except ConnectionError:
+                        self.tr = await HSFZTransport.connect(uri(None))
+                        return await self.tr.write(data, timeout=timeout)
+
+                async def read(self, timeout: float | None = None) -> bytes:
+                    return await self.tr.read(timeout=timeout)
+
+                async def close(self) -> None:
+                    await self.tr.close()
+
+            sh = SelfHelp()
+            await do_op(rec, sh, "write", 5.0, b"\x31\x01\xff\x00\x01\x02")
+            await drain_and_finish(rec, sh)
+
+    try:
+        vloop.run(main(), horizon=600)
+    except (TimeoutError, vloop.BlockedForever):
+        rec.ev.append({"e": "Final", "t": rec.ev[-1]["t"] if rec.ev else 0, "drained": False})
+    return {"cfg": cfg(1000), "ev": rec.ev, "prog": "control/reconnecting-write", "auto": False, "fed": fed_names,
+            "hang": False, "cut": []}
 
 
 MODEL_FRAME = {"ack": "Ack", "ackOther": "AckWrongData", "data": "DataUs", "dataOther": "DataOther", "alive": "Alive",
@@ -198,35 +252,36 @@ def replay_behaviour(beh: list[tuple[str, dict[str, Any]]], script: list[str]) -
 
     async def main() -> None:
         gw = Gateway(rec)
-        tr = await connect(rec, gw, uri())
-        task: asyncio.Future[str] | None = None
-        opi = 0
-        nd = 0
-        for act, st in beh[1:]:
-            if act == "GwSend":
-                f = st["inbuf"][-1]
-                name = MODEL_FRAME[f[0]]
-                fed_names.append(name)
-                gw.feed_named(name)
-                if name == "DataUs":
-                    nd += 1
-                    ids[tuple(gw_frame("DataUs", b"", gw.nfeeds)["d"])] = nd
-            elif act in ("WStart", "RStart"):
-                if task is not None:
-                    got["results"].append(await task)
-                op = script[opi]
-                opi += 1
-                task = asyncio.ensure_future(do_op(rec, tr, op, 5.0 if op == "write" else 1.0,
-                                                   b"\x22\xf1\x90" if op == "write" else b""))
-            elif act in ("AckTimeout", "RTimeout"):
-                if task is not None:
-                    got["results"].append(await task)
-                    task = None
-            else:
-                await settle()
-        if task is not None:
-            got["results"].append(await task)
-        await drain_and_finish(rec, tr, drain=False)
+        with gw.reachable():  # the gateway accepts (and records) further connections during the scenario
+            tr = await connect(rec, gw, uri())
+            task: asyncio.Future[str] | None = None
+            opi = 0
+            nd = 0
+            for act, st in beh[1:]:
+                if act == "GwSend":
+                    f = st["inbuf"][-1]
+                    name = MODEL_FRAME[f[0]]
+                    fed_names.append(name)
+                    gw.feed_named(name)
+                    if name == "DataUs":
+                        nd += 1
+                        ids[tuple(gw_frame("DataUs", b"", gw.nfeeds)["d"])] = nd
+                elif act in ("WStart", "RStart"):
+                    if task is not None:
+                        got["results"].append(await task)
+                    op = script[opi]
+                    opi += 1
+                    task = asyncio.ensure_future(do_op(rec, tr, op, 5.0 if op == "write" else 1.0,
+                                                       b"\x22\xf1\x90" if op == "write" else b""))
+                elif act in ("AckTimeout", "RTimeout"):
+                    if task is not None:
+                        got["results"].append(await task)
+                        task = None
+                else:
+                    await settle()
+            if task is not None:
+                got["results"].append(await task)
+            await drain_and_finish(rec, tr, drain=False)
 
     try:
         vloop.run(main(), horizon=600)
@@ -263,10 +318,15 @@ def run(tier: str, seed: int) -> Report:
                 "under virtual time; the gateway injects frames from the alphabet at every instant relative to the "
                 "client's phases (before an operation, when the request hits the wire before/after the ack, 100 ms "
                 "into a wait, 100 ms before its deadline), all choice vectors up to the frame budget, for several ack "
-                "timeouts; every single split point of every frame of canonical scenarios (+ random multi-splits); "
+                "timeouts; all seven error control words and the gateway's FIN at each of these instants; every single split "
+                "point of every frame of canonical scenarios (+ random multi-splits); "
                 "distinct = distinct (event sequence, segmentation); non-trivial = at least one injected frame")
     rep.assumptions = [
         "asyncio.open_connection is replaced in the harness process by an in-memory connection (real StreamReader)",
+        ("the gateway stays reachable for the whole scenario: every further connection the transport opens is accepted, "
+         "served like the first (frames go to the newest connection) and recorded (Conn / Out / Feed / Closed carry the "
+         "connection number); opening connections is not judged as such (C08), an operation is bound to the connection "
+         "it was issued on"),
         "virtual time: processing takes no time; a frame counts as delivered when its last byte is fed",
         "status control words (Klemme15 ...) and stale acks: what follows is not judged (unspecified by the statement)",
         "OSError(EBADFD) raised on a closed HSFZ connection is counted as a connection error",
@@ -360,6 +420,19 @@ def run(tier: str, seed: int) -> Report:
 
             for _vec, t in explore(runit3b, 64):
                 add(t, "enum-errwords-read-first")
+    # the gateway ends the connection (FIN) at every phase -- in particular in the ack phase of a write, before or
+    # behind other frames; like the error words above with a gateway that stays reachable: a transport that opens a
+    # further connection by itself gets it, is acknowledged and served there, and all of that is recorded
+    for prog, auto, al in (("WRR", True, ["EOF", "DataUs"]), ("WRR", False, ["EOF", "Ack", "DataOther"]),
+                           ("WWR", True, ["EOF", "Err41"]), ("RWR", True, ["EOF", "DataUs"])):
+        if prog == "RWR" and tier == "quick":
+            continue
+
+        def runit4(ch: Any, prog: str = prog, auto: bool = auto, al: list[str] = al) -> dict[str, Any]:
+            return run_scenario(ch, prog, al, 2, auto=auto)
+
+        for _vec, t in explore(runit4, 64):
+            add(t, "enum-eof")
     # two tasks of the caller on one connection: a read is pending while another task writes
     for write_at in (100, 500):
         for ack_delay in (0, 1, 50, 300):
@@ -421,10 +494,18 @@ def run(tier: str, seed: int) -> Report:
             break
     bad2 = json.loads(json.dumps(good))
     bad2["ev"] = [e for e in bad2["ev"] if not (e["e"] == "Out" and e["f"]["k"] == "Data")]
-    v2, _ = validate([bad, bad2])
+    # negative control of the environment: a write that opens a further connection by itself and re-sends there
+    ctl = reconnecting_write_control()
+    if not any(e["e"] == "Conn" and e["n"] == 2 for e in ctl["ev"]) or \
+            not any(e["e"] == "Out" and e.get("c") == 2 and e["f"]["k"] == "Data" for e in ctl["ev"]):
+        raise Machinery(f"negative control: the gateway did not see / record a second connection: {ctl['ev'][:16]}")
+    v2, _ = validate([bad, bad2, ctl])
     if v2[0][0] == "ok" or v2[1][0] == "ok":
         raise Machinery(f"binding self-test: corrupted traces accepted: {v2}")
+    if v2[2][0] == "ok":
+        raise Machinery("negative control: a write that re-sends on a connection it opened by itself was accepted")
     rep.extra["binding_selftest"] = [v2[0][0], v2[1][0]]
+    rep.extra["control_reconnecting_write"] = v2[2][0]
     return rep
 
 
